@@ -679,7 +679,8 @@ func (Area) Gen(r *rand.Rand, tier string, emit func(string)) {
 			emit(fmt.Sprintf("r %s %s %s %s", tbl, common.HexS("POST"), kind, common.HexS(target)))
 		}
 	}
-	for _, target := range []string{"/", "/a", "/a%41", "/a%2541", "/a%zz", "/a?b", "/a?", "/a?b?", "/a%3Fb", "/a#b", "/a b", "*", "", "a", "http://h/a", "//h/a", "/a/../b", "/%", "/%4", "/a\x01", "/a\x7f", "/\xc3\xa9", "/%C3%A9", "/a;b,c", "/a[b]", "/a|b", "/!$&'()*+,;=:@", "/a%2Fb", "/a%2fb", "/~-._", "/a\\b", "/a\"b", "/a<b>", "/a^`{}"} {
+	for _, target := range []string{"/", "/a", "/a%41", "/a%2541", "/a%zz", "/a?b", "/a?", "/a?b?", "/a%3Fb", "/a#b", "/a b", "*", "", "a", "http://h/a", "//h/a", "/a/../b", "/%", "/%4", "/a\x01", "/a\x7f", "/\xc3\xa9", "/%C3%A9", "/a;b,c", "/a[b]", "/a|b", "/!$&'()*+,;=:@", "/a%2Fb", "/a%2fb", "/~-._", "/a\\b", "/a\"b", "/a<b>", "/a^`{}",
+		"http://h", "http://h/", "http://h:80/a%2541", "http://h:/a", "http://h:8x/a", "http://u@h/a", "http://[::1]/a", "http://h%41/a", "HTTP://H.example-1.org:8080/v/%2541?q=/x", "http:///a", "http:/a", "http:a", "http:", "http:?q", "http://h?q", "http://h/a?", "https://h/a/b%2Fc", "mailto:x@y", ":a", "1a:b", "a1+.-://h/p", "a/b:c", "a:b:c", "a:/b%zz", "a://h/%zz", "a://h//b", "a://h/a b", "+a://h/a", "a_b://h/a", "a://h:80:90/a", "a://h_x/a", "a://h/\x7f"} {
 		emit("u pru " + common.HexS(target))
 		emit("u req " + common.HexS(target))
 	}
@@ -778,6 +779,11 @@ func (Area) Gen(r *rand.Rand, tier string, emit func(string)) {
 			target += "?"
 		case 2:
 			target = strings.TrimPrefix(target, "/")
+		case 3, 4: // absolute-form: scheme://authority + path
+			auth := common.Pick(r, []string{"h", "example.org", "h:80", "h:", "10.0.0.1:8080", "", "a-b.c", "u@h", "[::1]:80", "h:8x", "h%41", "h_x", "H"})
+			target = common.Pick(r, []string{"http", "https", "a", "A1+.-", "ws"}) + "://" + auth + target
+		case 5: // scheme without authority: rooted or opaque
+			target = common.Pick(r, []string{"http:", "a:", "mailto:", ":", "1:", "a_:", "+:"}) + common.Pick(r, []string{target, strings.TrimPrefix(target, "/"), ""})
 		}
 		count("u-generated")
 		emit("u " + common.Pick(r, []string{"pru", "req"}) + " " + common.HexS(target))
@@ -821,6 +827,9 @@ func (Area) Gen(r *rand.Rand, tier string, emit func(string)) {
 			kind := common.Pick(r, []string{"req", "req", "raw", "path"})
 			if kind == "req" && r.Intn(15) == 0 {
 				path += "?" + randSeg(r)
+			}
+			if kind == "req" && r.Intn(12) == 0 {
+				path = common.Pick(r, []string{"http://h", "https://example.org:8443", "a://h:", "http://u@h"}) + path
 			}
 			count("r-" + kind)
 			emit(fmt.Sprintf("r %s %s %s %s", table, common.HexS(method), kind, common.HexS(path)))
